@@ -76,6 +76,8 @@ fn cmd_replay(args: &[String]) -> i32 {
     let limit = arg_u64(args, "--limit", u64::MAX) as usize;
     let out_dir = arg(args, "--out-dir").unwrap_or("/verif/work/replay".into());
     let mixed = !flag(args, "--single-backend");
+    let faults = flag(args, "--faults");
+    let sqlite = flag(args, "--sqlite");
     std::fs::create_dir_all(&out_dir).ok();
     let f = std::io::BufReader::new(std::fs::File::open(&input).expect("open input"));
     let behaviours: Vec<Value> = f.lines().filter_map(|l| l.ok()).filter(|l| l.starts_with('{')).take(limit).map(|l| serde_json::from_str(&l).expect("json")).collect();
@@ -96,9 +98,11 @@ fn cmd_replay(args: &[String]) -> i32 {
                 let mut res = vec![];
                 for (i, b) in chunk {
                     // a replay file carries its own options
-                    let opts = match b.get("opts") { Some(o) => opts_from_json(o), None => pick_opts(seed, i as u64, mixed) };
+                    let mut opts = match b.get("opts") { Some(o) => opts_from_json(o), None => pick_opts(seed, i as u64, mixed) };
+                    if sqlite { opts.sqlite = true; }
+                    if let Some(r) = b.get("cfg").and_then(|c| c.get("retention")).and_then(|r| r.as_u64()) { opts.retention = r; }
                     let oj = opts_json(&opts);
-                    let o = replay::run_behaviour(&b, opts, false);
+                    let o = replay::run_behaviour(&b, opts, false, faults);
                     let mut files = vec![];
                     if !o.viols.is_empty() {
                         let mut bb = b.clone();
